@@ -6,7 +6,7 @@ use crate::rt::Rng;
 
 /// Class representatives for the deb822 lexer (16 symbols).
 pub const DEB_ALPHABET: [&str; 16] = [
-    "A", "b", "-", ":", "#", " ", "\t", "\n", "\r", "é", "漢", "😀", "\u{1}", "\u{7f}", "1", "~",
+    "A", "b", "-", ":", "#", " ", "\t", "\n", "\r", "é", "漢", "😀", "\u{c}", "\u{7f}", "1", "~",
 ];
 
 /// Class representatives for the relation lexer (23 symbols).
